@@ -50,5 +50,56 @@ def run(ctx):
                    "slab shapes beyond the listed configurations"]
     t = threading.Thread(target=c04.kani_enc_unit, args=(ctx, "c09"))
     t.start()
+    slab_alignment_cross_check(ctx)
     run_slab(ctx, "c09")
     t.join()
+
+
+def slab_alignment_cross_check(ctx):
+    """Concrete cross-check (not what decides the level): the kernels the CPU dispatch really selects, applied through the slab to
+    symbols at every byte alignment (symbol i starts at i*T) and every T residue of the 8/16/32/64-byte strides, against the field definition."""
+    import time
+    from vlib import rfc
+    from vlib.native import Native
+    rep = ctx.report
+    native = Native(ctx.scratch.path)
+    t0 = time.time()
+    n = 0
+    sizes = list(range(1, 73)) + [77, 100, 127, 128, 129, 191, 193, 255, 257, 1316]
+    for T in sizes:
+        for release in ((False, True) if T % 7 == 0 or T > 72 else (True,)):
+            out = native.run(["slab-ops", T, 5], release=release)
+            if not out.startswith("slab"):
+                rep.violated("c09/native/slab-ops/T=%d" % T, "slab ops T=%d" % T, "run failed: %s" % out[:150], {"kind": "slab-ops", "T": T}, 0.0, "native")
+                continue
+            lines = {ln.split(" ", 1)[0]: ln.split(" ", 1)[1] for ln in out.splitlines()[1:] if " " in ln}
+            syms = [bytearray.fromhex(x) for x in lines["INIT"].split(",")]
+            for op in lines["OPS"].split(";"):
+                k, d, s_, c = [int(x) for x in op.split(",")]
+                if k == 0:
+                    syms[d] = bytearray(x ^ y for x, y in zip(syms[d], syms[s_]))
+                elif k == 1:
+                    syms[d] = bytearray(rfc.gf_mul(x, c) for x in syms[d])
+                else:
+                    syms[d] = bytearray(x ^ rfc.gf_mul(y, c) for x, y in zip(syms[d], syms[s_]))
+            got = [bytes.fromhex(x) for x in lines["FINAL"].split(",")]
+            n += 1
+            if [bytes(x) for x in syms] != got:
+                bad = next(i for i in range(len(got)) if bytes(syms[i]) != got[i])
+                col = next(j for j in range(T) if syms[bad][j] != got[bad][j])
+                rep.violated("c09/native/slab-ops/T=%d" % T, "slab ops T=%d" % T,
+                             "symbol operations on a slab with T=%d (symbols at byte offsets i*T) differ from the byte-wise field operations: symbol %d byte %d (%s build)" % (T, bad, col, "release" if release else "debug"),
+                             {"kind": "slab-ops", "T": T, "count": 5}, 0.0, "native")
+    rep.held("c09/native/slab-ops-at-every-alignment-and-T-residue", "%d runs of 20 dispatched kernel operations each, T in 1..72 and 10 larger sizes" % n, time.time() - t0, "native/concrete", runs=n)
+
+
+def replay(path):
+    import json
+    from vlib.common import Scratch
+    from vlib.native import Native
+    obj = json.load(open(path))
+    if obj.get("kind") == "slab-ops":
+        print(Native(Scratch("replay").path).run(["slab-ops", obj["T"], obj.get("count", 5)], release=True)[:2000])
+    else:
+        print(json.dumps(obj, indent=1)[:3000])
+    return 0
